@@ -700,7 +700,31 @@ impl Gen {
         Some(Step::Exec { sender, funds, msg: ExecuteMsg::ExecuteMatch { ask_id, bid_id, price, size: Uint128::new(size) } })
     }
 
+    /// another spelling of the same uuid (every form the id grammar of cancel / expire / reject accepts)
+    fn other_spelling(&mut self, id: &str) -> String {
+        let plain: String = id.chars().filter(|c| *c != '-').collect();
+        match self.rng.below(5) {
+            0 => plain,
+            1 => id.to_uppercase(),
+            2 => format!("{{{}}}", id),
+            3 => format!("urn:uuid:{}", id),
+            _ => {
+                // a legacy (un-hyphenated) key written with hyphens
+                if plain.len() == 32 && !id.contains('-') {
+                    format!("{}-{}-{}-{}-{}", &plain[0..8], &plain[8..12], &plain[12..16], &plain[16..20], &plain[20..32])
+                } else {
+                    plain.to_uppercase()
+                }
+            }
+        }
+    }
+
     fn pick_ask_id(&mut self, w: &World, asks: &[(String, AskOrderV1)]) -> (String, Option<AskOrderV1>) {
+        if !asks.is_empty() && self.rng.pct(7) {
+            // an existing order addressed by a different spelling of its id: no such key
+            let (k, _) = self.rng.pick(asks).clone();
+            return (self.other_spelling(&k), None);
+        }
         if !asks.is_empty() && self.rng.pct(90) {
             let (k, a) = self.rng.pick(asks).clone();
             (k, Some(a))
@@ -713,6 +737,10 @@ impl Gen {
     }
 
     fn pick_bid_id(&mut self, w: &World, bids: &[(String, BidOrderV3)]) -> (String, Option<BidOrderV3>) {
+        if !bids.is_empty() && self.rng.pct(7) {
+            let (k, _) = self.rng.pick(bids).clone();
+            return (self.other_spelling(&k), None);
+        }
         if !bids.is_empty() && self.rng.pct(90) {
             let (k, b) = self.rng.pick(bids).clone();
             (k, Some(b))
